@@ -144,8 +144,15 @@ static void mf_case(vf_rng *r)
         {
             if (!(v[i] >= 0 && v[i] <= 1)) { vf_viol("mf/range/" W, "family #%d at x=%.9Lg (a=%.9Lg b=%.9Lg c=%.9Lg d=%.9Lg s=%.9Lg) = %.9Lg", i, (long double)x, (long double)a, (long double)b, (long double)c, (long double)d, (long double)s, (long double)v[i]); return; }
         }
+        /* s + z == 1 and lins + linz == 1 are algebraic consequences of the formulas only while the rounded midpoint (a+b)/2 is
+           indistinguishable from the real one: at x == fl((a+b)/2) the two functions evaluate DIFFERENT branch formulas, which differ
+           by 4*delta^2 with delta = (fl(mid) - mid)/(b - a).  Requiring 4*delta^2 <= eps gives b - a >= |mid| * sqrt(eps); narrower
+           flanks are not judged (first version of this companion judged them: false alarm in the float build, thorough seed 2,
+           x=-58.1306458 a=-58.1311684 b=-58.1301193, s+z = 1.0000132). */
+        if ((q_t)(b - a) >= 4 * sqrtq(EPS) * (fabsq((q_t)a) + fabsq((q_t)b)))
         {
             a_real sz = a_mf_s(x, a, b) + a_mf_z(x, a, b), ll = a_mf_lins(x, a, b) + a_mf_linz(x, a, b);
+            VF_COUNT("w-mf-pairs-complementary");
             if (fabsq((q_t)sz - 1) > 2 * EPS || fabsq((q_t)ll - 1) > 2 * EPS) { vf_viol("mf/pairs-not-complementary/" W, "x=%.9Lg a=%.9Lg b=%.9Lg: s+z=%.12Lg lins+linz=%.12Lg", (long double)x, (long double)a, (long double)b, (long double)sz, (long double)ll); return; }
         }
     }
